@@ -91,7 +91,52 @@ def design_level(out, tier):
     if res.violation != 'CountsEverything':
         raise MachineryError('MCFanoutRemove_dev was expected to violate CountsEverything, got %s %s' % (res.violation, res.error))
     rej.append('dev (a Timeout count replaces the running total) violates CountsEverything')
+    # how the shards come to their size limit (creation, kills between its steps, later opens with / without a limit)
+    res = run_tlc('ShardCreate.tla', 'ShardCreate_ok.cfg', workers=4, timeout=300)
+    if res.error or res.violation:
+        raise MachineryError('ShardCreate_ok: %s %s\n%s' % (res.error, res.violation, res.out[-1500:]))
+    out.add_tlc('ShardCreate_ok.cfg', res, '3 shards, opens with and without a size limit, kills between any two steps; NeverUndivided, ExplicitApplied, StoredSurvives, AllOpened')
+    for name, want in (('dev_always', 'StoredSurvives'), ('dev_dbfile', 'NeverUndivided'), ('dev_dir', 'NeverUndivided'), ('dev_ignore', 'ExplicitApplied')):
+        res = run_tlc('ShardCreate.tla', 'ShardCreate_%s.cfg' % name, workers=1, timeout=300)
+        if res.violation != want:
+            raise MachineryError('ShardCreate_%s was expected to violate %s, got %s %s' % (name, want, res.violation, res.error))
+        rej.append('ShardCreate %s violates %s' % (name, want))
     out.notes['design_deviations_rejected'] = rej
+
+
+def _shard_plan(plan, n, tid):
+    from .. import killdriver
+    return killdriver.run_shard_plan(plan, n, tid)
+
+
+def shard_plans(out, tier, seed):
+    """Every behaviour of ShardCreate with 2 shards and 3 opens (8000; a sample in the quick tier) replayed on the real
+    FanoutCache, each open in a forked process killed before the named step; ShardCreateTrace compares the shards on disk."""
+    from .. import plans
+    pl, res = plans.tlc_plans('ShardCreatePlan.tla', 'ShardCreatePlan.cfg', timeout=300)
+    rng = random.Random(seed * 7919 + 13)
+    rng.shuffle(pl)
+    pl = pl[:400] if tier == 'quick' else pl
+    traces = pmap(_shard_plan, [(p, 2, i + 1) for i, p in enumerate(pl)], procs=14)
+    import harness.common as _c
+    saved = _c.TRACE_FIELDS
+    _c.TRACE_FIELDS = ('id', 'ev')
+    try:
+        verdicts, st, tr = validate_all('ShardCreateTrace.tla', 'ShardCreateTrace.cfg', traces, batch_events=3000)
+    finally:
+        _c.TRACE_FIELDS = saved
+    out.states += st
+    out.transitions += tr
+    out.traces += len(traces)
+    out.events += sum(len(t['ev']) for t in traces)
+    byid = {t['id']: t for t in traces}
+    for tid_, v in sorted(verdicts.items()):
+        if not v['ok']:
+            if v['why'].startswith('harness:'):
+                raise MachineryError('shard plan %d: %s' % (tid_, v['why']))
+            out.violation('plan of ShardCreate replayed on FanoutCache: %s' % v['why'], {'plan': byid[tid_]['ev'], 'verdict': v})
+    out.notes['shardcreate_plans_generated'] = 8000 if tier != 'quick' else len(pl)
+    out.notes['shardcreate_plans_replayed'] = len(traces)
 
 
 def run(prop, tier, seed):
@@ -211,6 +256,7 @@ def run(prop, tier, seed):
                 break
             if (ia in sh) != (ib in sh):
                 pass        # equal keys in one shard overwrite each other: one value survives
+    shard_plans(out, tier, seed)
     out.samples.append({'cfg': traces[0]['cfg'], 'ops': [[e['op'], e['a'], e['ret']] for e in traces[0]['ev'][:10]]})
     out.notes.update({'routing_keys': len(keys), 'interpreters_compared': len(seeds), 'shard_counts': [1, 2, 3, 8, 13]})
     out.level = 'model_checking'
